@@ -49,12 +49,14 @@ type Config struct {
 	Hostile       bool   `json:"hostile,omitempty"`         // some plugin answers with hostile shapes
 	HostileSrc    bool   `json:"hostile_src,omitempty"`     // ... including sources (positions ambiguous)
 	// Healthy: no injected faults, every outcome tolerated: exact drain / liveness oracles apply.
-	Healthy           bool  `json:"healthy,omitempty"`
-	GatePermille      int   `json:"gate_permille,omitempty"`       // chance (per mille) that a channel/mutex operation of the engine parks at a gate
-	MaxGates          int   `json:"max_gates,omitempty"`           // gate parks per run
-	GateMaxDelay      int   `json:"gate_max_delay,omitempty"`      // a gate park lasts up to this many scheduler steps
-	GateBoost         []int `json:"gate_boost,omitempty"`          // site classes (site id mod 16) with a boosted chance
-	GateBoostPermille int   `json:"gate_boost_permille,omitempty"` // that chance
+	Healthy           bool   `json:"healthy,omitempty"`
+	GatePermille      int    `json:"gate_permille,omitempty"`       // chance (per mille) that a channel/mutex operation of the engine parks at a gate
+	MaxGates          int    `json:"max_gates,omitempty"`           // gate parks per run
+	GateMaxDelay      int    `json:"gate_max_delay,omitempty"`      // a gate park lasts up to this many scheduler steps
+	GateBoost         []int  `json:"gate_boost,omitempty"`          // site classes (site id mod 16) with a boosted chance
+	GateBoostPermille int    `json:"gate_boost_permille,omitempty"` // that chance
+	GateScope         string `json:"gate_scope,omitempty"`          // "control": only operations of the service (control-plane) code are preemption points
+	GateTimeMs        int    `json:"gate_time_ms,omitempty"`        // simulated time that may pass in total while goroutines stay preempted
 }
 
 type SrcCfg struct {
@@ -160,6 +162,18 @@ func GenConfig(seed int64, family string) *Config {
 			c.GateBoost = append(c.GateBoost, r.IntN(16))
 		}
 		c.GateBoostPermille = pick(r, 200, 500, 800)
+	}
+	if c.GateMaxDelay >= 30 {
+		c.GateTimeMs = pick(r, 0, 100, 400)
+	}
+	if r.IntN(4) == 0 {
+		// dense exploration of the control plane: few preemptions, each possibly long
+		c.GateScope = "control"
+		c.GatePermille = pick(r, 50, 150, 400)
+		c.MaxGates = pick(r, 2, 5, 12)
+		c.GateMaxDelay = pick(r, 4, 30, 120, 300)
+		c.GateTimeMs = pick(r, 0, 100, 400)
+		c.GateBoost, c.GateBoostPermille = nil, 0
 	}
 	return c
 }
